@@ -145,8 +145,28 @@ def work_instance(arg):
            'kinds': collections.Counter()}
     seen = set()
 
+    # how the database file is ADDRESSED: the same file through a plain absolute path, through a symbolic link to its
+    # directory, or as a relative pathlib.Path (the working directory is changed inside the forked execution)
+    spelling = ['plain']
+    link = os.path.join(sdir, 'link')
+    if os.path.islink(link):
+        os.remove(link)
+    os.symlink(sdir, link)
+
+    def spell(path):
+        if spelling[0] == 'symlink':
+            return os.path.join(link, os.path.basename(path))
+        if spelling[0] == 'relative-Path':
+            import pathlib
+            os.chdir(os.path.dirname(path))
+            return pathlib.Path(os.path.basename(path))
+        return path
+
     def report(kind, fault, what, obs=None):
         sig = {'check': kind, 'op': label.split('(')[0], 'fault': fault[0] + (':' + fault[1] if fault[1] else '')}
+        if spelling[0] != 'plain':
+            sig['path'] = spelling[0]
+            what = f'[database addressed as {spelling[0]}] ' + what
         k = core.sig_key(sig)
         if k in seen:
             return
@@ -167,9 +187,9 @@ def work_instance(arg):
         plan = ef.Plan()
         with ef.injected(plan):
             o = core.call(fn, u, work)
-        return o.ok, o.brief(), plan.n, plan.log
+        return o.ok, o.brief(), plan.n, plan.log, plan.sql_n
 
-    ok, brief, n_points, log = ef.in_fork(dry)
+    ok, brief, n_points, log, n_sql = ef.in_fork(dry)
     if not ok:
         raise core.HarnessError(f'dry run of {label} on {prep} failed: {brief}')
     d = after.diff(rs.read_raw(work))
@@ -195,7 +215,7 @@ def work_instance(arg):
     def retry_and_check(fault, state):
         """The same call, fault-free, in the same session (registries as the failed call left them)."""
         u2 = _universe_keep_registries()
-        o2 = core.call(fn, u2, work)
+        o2 = core.call(fn, u2, spell(work))
         out['ev'] += 1
         if state == 'before':
             if not o2.ok:
@@ -224,14 +244,14 @@ def work_instance(arg):
         if action.startswith('exit'):
             def child():
                 with ef.injected(plan1):
-                    fn(uu, work)
+                    fn(uu, spell(work))
             code = ef.run_in_child(child)
             if code != 137:
                 raise core.HarnessError(f'child for {label} fault {fault} exited with {code} instead of dying at the point')
             o1 = None
         else:
             with ef.injected(plan1):
-                o1 = core.call(fn, uu, work)
+                o1 = core.call(fn, uu, spell(work))
             if not plan1.fired:
                 raise core.HarnessError(f'fault {fault} of {label} was never reached (nondeterministic statement count?)')
         out['ev'] += 1
@@ -256,7 +276,7 @@ def work_instance(arg):
             u2 = _universe_keep_registries()
             plan2 = ef.Plan(k2, action2, exc2)
             with ef.injected(plan2):
-                core.call(fn, u2, work)
+                core.call(fn, u2, spell(work))
             out['ev'] += 1
             st2, m2, det2 = classify(work)
             if st2 == 'neither':
@@ -293,6 +313,33 @@ def work_instance(arg):
             if big and action == 'exit-after' and k < n:
                 continue        # death after point k == death before point k+1
             one_((action, exc, k))
+    # engine-level points: process death at, and an interrupted (failing) statement at, every SQL statement the SQLite engine
+    # starts -- the statements inside a script and the implicit BEGIN / COMMIT are points of their own here
+    if not big:
+        out['sql_points'] = n_sql
+        for j in range(1, n_sql + 1):
+            one_(('exit-at-sql', None, j))
+            if any(a.startswith('raise') for a, _ in faults):
+                one_(('interrupt-at-sql', None, j))
+    if not big:
+        for sp in ('symlink', 'relative-Path'):
+            spelling[0] = sp
+            # the points are learnt again: how many statements an operation issues may depend on how the file is addressed
+
+            def dry_sp():
+                fresh_copy(prepared, work)
+                plan = ef.Plan()
+                with ef.injected(plan):
+                    o = core.call(fn, c08.universe('registered'), spell(work))
+                return o.ok, o.brief(), plan.n, after.diff(rs.read_raw(work))
+            ok_sp, brief_sp, n_sp, d_sp = ef.in_fork(dry_sp)
+            if not ok_sp or d_sp:
+                report('fault-free-run-wrong', ('none', None, 0), f'the fault-free operation: {brief_sp}; tables vs model: {d_sp}')
+                continue
+            for k in range(1, n_sp + 1):
+                one_(('raise-instead', 'OperationalError', k))
+                one_(('exit-before', None, k))
+        spelling[0] = 'plain'
     if bound2:
         # bound 2: a second fault in the retry, after a first fault at the first / middle / last statement point
         firsts = sorted({2, max(2, n // 2), max(2, n - 2)})
@@ -499,6 +546,7 @@ def run(ctx):
         pts[f"{r['label']} @ {r['prep']}"] = r['points']
         kinds.update(r['kinds'])
     ctx.cov['points_per_instance'] = pts
+    ctx.cov['engine_level_sql_points'] = sum(r.get('sql_points', 0) for r in res)
     ctx.cov['fault_kind_counts'] = dict(kinds)
     ctx.cov['instances'] = len(instances)
     if not ctx.violations:
@@ -508,7 +556,8 @@ def run(ctx):
         strace_crash(ctx, instances)
     ctx.cov['rule'] = ('every write-operation instance x every point k (each execute/commit/rollback/close the operation issues, learnt by a '
                        'fault-free dry run) x every fault kind (sqlite3 exception raised instead of / after the statement; os._exit before / '
-                       'after it in a forked child); bound 2 = second fault in the retry; thorough adds SIGKILL at every write-class syscall '
+                       'after it in a forked child; and, at every SQL statement the engine itself starts (inside scripts, implicit BEGIN/COMMIT), process death '
+                       'and an interrupted statement); bound 2 = second fault in the retry; thorough adds SIGKILL at every write-class syscall '
                        '(strace inject). Non-trivial = the run reached the fault and the file was classified before/after.')
     r0 = res[0]
     ctx.sample({'instance': f"{r0['label']} on {r0['prep']}", 'points': r0['log']})
